@@ -43,7 +43,8 @@ RULE = ("program = seeded subclass tree + instances; history = <= max_ops operat
 PROBES = ["unset_below_non_default_ancestor", "set_on_sibling", "invalid_value_rejected",
           "instance_write_to_class_only_setting_rejected", "per_call_method_override",
           "instance_override_then_unset", "native_anim_max_bytes_shared",
-          "render_reveals_lines", "render_reveals_whole"]
+          "render_reveals_lines", "render_reveals_whole", "render_reveals_jpeg",
+          "render_reveals_png"]
 COMPONENTS = {
     "real": ["BaseImage.set_render_method (class and instance forms)", "ImageMeta.forced_support",
              "ITerm2ImageMeta + ClassInstanceProperty / ClassProperty descriptors",
@@ -183,6 +184,17 @@ def run(ch, ctx, fault=None):
             ctx.probe("render_reveals_lines" if want == 2 else "render_reveals_whole")
             if override:
                 ctx.probe("per_call_method_override")
+            if n.family == "iterm2" and not via_draw:
+                import base64
+                m_ = re.search(r"\x1b\]1337;File=[^:]*:([A-Za-z0-9+/=]+)", render)
+                if m_:
+                    head = base64.b64decode(m_.group(1)[:16] + "=" * (-len(m_.group(1)[:16]) % 4))
+                    is_jpeg = head[:3] == b"\xff\xd8\xff"
+                    want_jpeg = inst_effective(n, own, "jpeg") >= 0
+                    ctx.probe("render_reveals_jpeg" if want_jpeg else "render_reveals_png")
+                    check(is_jpeg == want_jpeg, "render_did_not_use_the_effective_jpeg_quality",
+                          {"after": desc, "class": n.name, "jpeg_payload": is_jpeg,
+                           "effective_jpeg_quality": inst_effective(n, own, "jpeg")}, "render")
             check(cmds == want, "render_did_not_use_the_effective_method",
                   {"after": desc, "class": n.name, "effective": eff, "override": override,
                    "commands": cmds, "expected_commands": want}, "render")
